@@ -128,6 +128,9 @@ class FetchShape(FetchStream):
         return [
             {"master": "m", "sources": [["s", i] for i in range(n)], "diff": d, "track": False},
             {"master": "m", "sources": [["sd", i] for i in range(n)], "diff": d, "track": False},
+            # the usual "working = master.fetch()" idiom: a fetch RESULT (templates flagged) used as the master
+            {"master": "m", "sources": [], "diff": False, "track": False},
+            {"master": ["r", 2], "sources": [["s", i] for i in range(n)], "diff": d, "track": False, "lenient_oracle": True},
         ]
 
     def corpus(self):
@@ -176,14 +179,21 @@ class FetchShape(FetchStream):
         return True
 
     def prop(self, case, obs):
-        if not isinstance(obs, list) or len(obs) != 2 or not isinstance(obs[0], list):
+        if not isinstance(obs, list) or len(obs) < 2 or not isinstance(obs[0], list):
             return None
-        o0, o1 = obs
+        o0, o1 = obs[:2]
         if o0[0] == "ok" and not case.get("diff"):
             mt = canon(objs_sx(self.fp.parse(input_string=case["m"])))
             why = shape_objs(mt, o0[1])
             if why is not None:
                 return "shape: " + why
+        # step 3: the fetch result of step 2 used as the master ("working = master.fetch()"); for masters with unique sibling
+        # names the result must have the master's structure as well (others: compared with the model only)
+        if (len(obs) >= 4 and isinstance(obs[3], list) and obs[3][0] == "ok" and not case.get("diff")
+                and not self._dup_master(case["m"])):
+            why = shape_objs(canon(objs_sx(self.fp.parse(input_string=case["m"]))), obs[3][1])
+            if why is not None:
+                return "shape (master = master.fetch()): " + why
         if o1 != o0:
             return "srcdis: with the disabled source objects removed the fetch gives %s instead of %s" % (
                 json.dumps(o1)[:300], json.dumps(o0)[:300])
